@@ -28,7 +28,7 @@ from indi.transport.server import tcp as server_tcp  # noqa: E402
 from indi.transport.server import tty as server_tty  # noqa: E402
 
 CONNS = ["a", "b", "c"]
-_ID = re.compile(r'(?:message|device)="m(\d+)"')
+_ID = re.compile(r'(?:message|device|name)="m(\d+)"')
 
 
 class RecDevice(RoutingDevice):
@@ -133,6 +133,10 @@ class World:
                 self._accept(ev["c"], ev["k"])
             elif op == "feed":
                 self._feed(ev["c"], ev["it"], ev["id"])
+            elif op == "dsend" and ev.get("blobmsg"):
+                # a BLOB update (reaches the connections that enabled BLOBs for D): routed like any other device message
+                self.router.process_message(M.SetBLOBVector(device="D", name=f"m{ev['id']}", state="Ok",
+                                                            children=[one_parts.OneBLOB(name="b", size=3, format=".x", value="QUJD")]), sender=self.dev)
             elif op == "dsend":
                 # (a `big` message is longer than any plausible chunk size: a write must still be one whole message)
                 self.router.process_message(M.Message(device="D", message=f"m{ev['id']}", timestamp=("t" * 70000 if ev.get("big") else None)),
@@ -222,11 +226,14 @@ def run_script(script: List[dict]) -> List[dict]:
 
 
 # ------------------------------------------------------------------ exhaustive exploration of completion orders (C19)
-def explore_bursts(kind: str, nconn: int, nmsgs: int, budget: int, r, allow_fail: bool, big: bool = False) -> List[List[dict]]:
+def explore_bursts(kind: str, nconn: int, nmsgs: int, budget: int, r, allow_fail: bool, big: bool = False, blob: bool = False) -> List[List[dict]]:
     """DFS over all schedules: next message routed / one loop iteration / any outstanding awaitable completes (or, once,
     fails).  Each maximal path is re-executed from scratch on fresh real objects."""
     conns = CONNS[:nconn]
     setup = [{"op": "accept", "c": c, "k": kind} for c in conns] + [{"op": "tick"}]
+    if blob:
+        # every connection enables BLOBs first; the first message of the burst is then a BLOB update, the others are ordinary ones
+        setup += [{"op": "feed", "c": c, "it": "enable", "id": 0} for c in conns] + [{"op": "tick"}, {"op": "tick"}]
     traces: List[List[dict]] = []
     stack: List[Tuple[List[dict], int, int]] = [([], 0, 0)]     # (actions so far, messages sent, failures injected)
     while stack and len(traces) < budget:
@@ -236,7 +243,7 @@ def explore_bursts(kind: str, nconn: int, nmsgs: int, budget: int, r, allow_fail
         options: List[Tuple[dict, int, int]] = []
         if sent < nmsgs:
             nid = sent + 1
-            extra = {"big": 1} if big and nid == 1 else {}
+            extra = {"big": 1} if big and nid == 1 else ({"blobmsg": 1} if blob and nid == 1 else {})
             if kind == "cli":
                 options.append(({"op": "csend", "c": conns[sent % nconn], "id": nid, **extra}, sent + 1, fails))
             else:
@@ -479,6 +486,8 @@ def run(prop: str, tier: str) -> int:
             for nconn, nmsgs in ([(1, 2), (1, 3), (2, 2)] if tier == "quick" else [(1, 2), (1, 3), (1, 4), (2, 2), (2, 3), (3, 2), (1, 5)]):
                 traces += explore_bursts(kind, nconn, nmsgs, budget, r, allow_fail=True)
             traces += explore_bursts(kind, 1, 2, max(20, budget // 10), r, allow_fail=False, big=True)
+            if kind in ("tcp", "tty"):
+                traces += explore_bursts(kind, 1, 3, max(20, budget // 8), r, allow_fail=False, blob=True)
             traces.append(stalled_connection(kind, r))
         v.notes["burst_schedules"] = len(traces)
     if prop == "C18" or tier == "thorough":
